@@ -141,6 +141,7 @@ pub fn enumerate(d: usize, lv: &[RTy], pair_cap: usize) -> Vec<RTy> {
         out.push(RTy::Res1(b()));
         out.push(RTy::Ref(b()));
         out.push(RTy::Res2(b(), Box::new(RTy::Prim("String".into()))));
+        out.push(RTy::Tup(vec![t.clone()]));      // the one-element tuple `(T,)`
     }
     // binary constructors: cap the argument lists to keep the product finite and stated
     let args: Vec<&RTy> = sub.iter().take(pair_cap).collect();
@@ -174,7 +175,7 @@ pub fn random(rng: &mut Rng, depth: usize) -> RTy {
         9 => RTy::BMap(sub(rng), sub(rng)),
         10 => RTy::Res2(sub(rng), sub(rng)),
         _ => {
-            let n = 2 + rng.below(3);
+            let n = 1 + rng.below(4);
             RTy::Tup((0..n).map(|_| random(rng, depth - 1)).collect())
         }
     }
